@@ -669,7 +669,10 @@ struct Runner {
         std::unique_ptr<G> B(new G(mode == 2 ? modn(op.b, nmax + 1) : (unsigned)r.below(m.n + 1)));
         Model mb; mb.directed = directed; mb.n = (unsigned)B->getSize();
         const unsigned cap = mode == 2 ? nmax : m.n;
-        junkHistory(*B, mb, r.next(), (int)r.below(16), cap);
+        // one PRNG draw per full-expression: argument evaluation order differs between compilers
+        const uint64_t junkSeed = r.next();
+        const int junkLen = (int)r.below(16);
+        junkHistory(*B, mb, junkSeed, junkLen, cap);
         if (mode != 2) {
             sim::Op o;
             if (mb.n < m.n) {
@@ -716,6 +719,7 @@ struct Runner {
                         if (r.pm(300)) B->setEdgeWeight(ca, cb, v); else B->addEdge(ca, cb, v);
                     }
                     mb.add(a, b, v);
+                    if (kind == WEIGHTED) mb.absAdded += std::fabs((long double)v);
                 } else { // different value
                     double v = m.find(a, b)->val;
                     if constexpr (kind == LABELED) B->setEdgeLabel(ca, cb, labelOf(v));
@@ -726,6 +730,8 @@ struct Runner {
                         else B->setEdgeMultiplicity(ca, cb, (unsigned)v);
                     } else if constexpr (kind == WEIGHTED) B->setEdgeWeight(ca, cb, v);
                     mb.find(a, b)->val = v;
+                    mb.touch();
+                    if (kind == WEIGHTED) mb.absAdded += std::fabs((long double)v);
                 }
             }
             if (mode == 1) { // one seeded difference
@@ -738,6 +744,7 @@ struct Runner {
                     if (d == 0 && !absent.empty()) {
                         Key k = absent[r.below(absent.size())];
                         double v = kind == SIMPLE ? 0 : (kind == LABELED ? (double)r.below(ALPHA_N) : (kind == MULTI ? 1.0 + (double)r.below(3) : 1.25));
+                        if (kind == WEIGHTED) mb.absAdded += 1.25L;
                         if constexpr (kind == SIMPLE) B->addEdge(k.first, k.second);
                         else if constexpr (kind == LABELED) B->addEdge(k.first, k.second, labelOf(v));
                         else if constexpr (kind == MULTI) B->addMultiedge(k.first, k.second, (unsigned)v);
@@ -758,7 +765,7 @@ struct Runner {
                         MEdge *e = mb.find(k.first, k.second);
                         if constexpr (kind == LABELED) { double v = (double)modn((int64_t)e->val + 1 + (int64_t)r.below(ALPHA_N - 1), ALPHA_N); B->setEdgeLabel(k.first, k.second, labelOf(v)); e->val = v; }
                         else if constexpr (kind == MULTI) { double v = e->val + 1 + (double)r.below(3); B->setEdgeMultiplicity(k.first, k.second, (unsigned)v); e->val = v; }
-                        else if constexpr (kind == WEIGHTED) { double v = e->val + 0.25 * (double)(1 + r.below(8)); B->setEdgeWeight(k.first, k.second, v); e->val = v; }
+                        else if constexpr (kind == WEIGHTED) { double v = e->val + 0.25 * (double)(1 + r.below(8)); B->setEdgeWeight(k.first, k.second, v); e->val = v; mb.touch(); mb.absAdded += std::fabs((long double)v); }
                         res.probes.inc("replica_diff_label");
                         break;
                     }
